@@ -178,6 +178,21 @@ SOFT_EXIT = ('exit',)
 ERROR_FNS = ('error', 'error_at', 'error_tok')              # R14.7: end in exit(1)
 PID = 4242
 OTHER_PID = 4141        # a child the driver did not start itself (inherited through exec from a wrapper that forked a helper)
+EINTR, ECHILD = 4, 10   # Linux errno values a wait for an existing child can fail with
+
+
+class ErrnoPlace:
+    """`errno` (= *__errno_location()) of the process a path describes: one cell per path, kept in the process state"""
+    __slots__ = ()
+
+    def get(self, it):
+        st = proc_state(it.ctx)
+        if 'errno' not in st:
+            st['errno'] = Sym('g:errno', 'int')
+        return st['errno']
+
+    def set(self, it, v):
+        proc_state(it.ctx)['errno'] = v
 
 
 def is_uninit(v):
@@ -211,7 +226,8 @@ def proc_state(ctx):
     return ctx.proc
 
 
-def make_interp(P, unit, opaque=(), extra_models=None, loop_limit=1, globals_=None, noreturn_extra=(), inline_other_units=False, inherited_child=False):
+def make_interp(P, unit, opaque=(), extra_models=None, loop_limit=1, globals_=None, noreturn_extra=(), inline_other_units=False, inherited_child=False,
+                wait_failures=False):
     """Engine I configured with the process model. Scalar locals without initializer
     become the symbol `uninit:<name>` so that a read of a never-written variable is visible
     in the path facts instead of aborting the analysis.
@@ -219,7 +235,47 @@ def make_interp(P, unit, opaque=(), extra_models=None, loop_limit=1, globals_=No
     inherited_child: the process may own one child it did not start itself (a process keeps its children across exec: a
     wrapper that forks a helper and then execs the driver).  A wait for ANY child (wait, wait3, waitpid/wait4 with pid
     -1 / 0 / -pgrp, waitid P_ALL / P_PGID) then returns either child, in either order; the other child exits with
-    status 0.  `children` / `status` of the process state keep describing the child the path started itself."""
+    status 0.  `children` / `status` of the process state keep describing the child the path started itself.
+
+    wait_failures: a wait for a child that exists can FAIL, and the environment decides: (a) a signal that is caught
+    interrupts the call - -1/EINTR, the child is still there (explored at most once per path); (b) the process was started with SIGCHLD ignored (SIG_IGN survives exec: nohup-like wrappers, daemons) and no
+    code of the program sets the disposition back - the kernel then reaps the child itself, the wait blocks until the child
+    is gone and fails with -1/ECHILD without writing a status.  `wait_failures` may be a callable (state) -> bool saying
+    whether (b) is possible (False when the program resets SIGCHLD); st['wait_failed'] records 'EINTR' / 'ECHILD'."""
+    def set_errno(ctx, v):
+        proc_state(ctx)['errno'] = v
+
+    def env_wait_failure(it, ctx, n, name):
+        """None, or -1 after having set errno: failure of a wait for an existing own child that the environment decides"""
+        st = proc_state(ctx)
+        if not wait_failures or st['role'] != 'parent' or st['children'] <= 0:
+            return None
+        if st.get('env_sigchld') is None:
+            may = wait_failures(st) if callable(wait_failures) else True
+            explicit = st.get('disp', {}).get(SIGCHLD) is not None or st.get('disp_all', 'dfl') != 'dfl'
+            st['env_sigchld'] = 'dfl'
+            if may and not explicit and ctx.choose(2, 'SIGCHLD at program start') == 1:
+                st['env_sigchld'] = 'ign'
+                ctx.note('the driver was started with SIGCHLD ignored (the disposition survives exec)')
+        if st['env_sigchld'] == 'ign' and st.get('disp', {}).get(SIGCHLD) is None:
+            st['children'] = 0
+            st['others'] = 0
+            st['sigchld_ignored'] = 'inherited'
+            st['wait_failed'] = 'ECHILD'
+            set_errno(ctx, ECHILD)
+            ctx.note('%s()=-1 errno=ECHILD [SIGCHLD is ignored: the kernel reaped the child, no status is delivered]' % name)
+            return -1
+        if not st.get('eintr') and ctx.choose(2, '%s interrupted' % name) == 1:
+            st['eintr'] = 1
+            st['wait_failed'] = 'EINTR'
+            set_errno(ctx, EINTR)
+            ctx.note('%s()=-1 errno=EINTR [interrupted by a signal; the child is still running]' % name)
+            return -1
+        return None
+
+    def m_errno_location(it, ctx, n, args):
+        return _Ref(ErrnoPlace())
+
     def wait_target(it, ctx, n, name, args):
         """'own' | 'any' | 'unknown': which children a wait call can return"""
         if name in ('wait', 'wait3'):
@@ -282,7 +338,11 @@ def make_interp(P, unit, opaque=(), extra_models=None, loop_limit=1, globals_=No
         st['waits'] += 1
         if st['children'] <= 0 and not st.get('others'):
             ctx.note('%s()=-1 [no child]' % name)
+            set_errno(ctx, ECHILD)
             return -1
+        r = env_wait_failure(it, ctx, n, name)
+        if r is not None:
+            return r
         if st.get('disp', {}).get(SIGCHLD) == 'ign' or st.get('disp_all', 'dfl') != 'dfl':
             if st.get('disp', {}).get(SIGCHLD) != 'ign':
                 raise AnalysisBroken('%s with an unknown SIGCHLD disposition (%s:%d)' % (name, it.unit.name, n.line))
@@ -290,6 +350,7 @@ def make_interp(P, unit, opaque=(), extra_models=None, loop_limit=1, globals_=No
             st['children'] = 0
             st['others'] = 0
             st['sigchld_ignored'] = True
+            set_errno(ctx, ECHILD)
             ctx.note('%s()=-1 [SIGCHLD is ignored: no status is delivered]' % name)
             return -1
         who = pick_child(it, ctx, n, name, args)
@@ -337,7 +398,11 @@ def make_interp(P, unit, opaque=(), extra_models=None, loop_limit=1, globals_=No
             raise AnalysisBroken('waitid options %r not understood (%s:%d)' % (opts, it.unit.name, n.line))
         if st['children'] <= 0 and not st.get('others'):
             ctx.note('waitid()=-1 [no child]')
+            set_errno(ctx, ECHILD)
             return -1
+        r = env_wait_failure(it, ctx, n, 'waitid')
+        if r is not None:
+            return r
         who = pick_child(it, ctx, n, 'waitid', args)
         if who is None:
             ctx.note('waitid()=-1 [no such child]')
@@ -599,6 +664,7 @@ def make_interp(P, unit, opaque=(), extra_models=None, loop_limit=1, globals_=No
         models[f] = m_signal
     for f in SIGACTION_FNS:
         models[f] = m_sigaction
+    models['__errno_location'] = m_errno_location
     models['getpid'] = m_getpid
     models['getppid'] = m_getppid
     models['getpgrp'] = m_getpgrp
